@@ -9,6 +9,7 @@ import threading
 
 from ..world import World
 from .. import net as N
+from .. import sched as S
 from .common import Server, install_script, break_conn, SERIALIZERS
 from ..seams import config, CL
 import Pyro5.api as api
@@ -33,6 +34,11 @@ class Tok:
     def echo(self, tok):
         e = self._run("echo", tok)
         return [tok, self._ex[tok], e]
+
+    def tagged(self, tok):
+        """like echo, with a value no serializer can write natively (sets go through each serializer's conversion hook)"""
+        e = self._run("tagged", tok)
+        return {"v": [tok, self._ex[tok], e], "tags": {tok, "x" + str(tok)}}
 
     def boom(self, tok):
         e = self._run("boom", tok)
@@ -62,6 +68,7 @@ class Tok:
         return gen()
 
 
+_SER_CODES = None
 REQ_FAULTS = ["req_drop", "req_rst"]
 REP_FAULTS = ["rep_drop", "rep_delay", "rep_cut", "rep_rst", "rep_dup", "rep_stale", "rep_seq"]
 HS_FAULTS = ["hs_drop", "hs_cut", "hs_rst"]
@@ -78,12 +85,15 @@ class RpcWorld(World):
             "uuid4 (seeded)"]
     PROBES = ["retry_taken", "seq_wrap", "stale_rejected", "reconnect_after_release", "late_reply_discarded",
               "oneway_then_call", "recovered_after_failure", "remote_exception", "batch", "stream_item", "attr",
-              "comm_error", "timeout_error", "stream_exhausted"]
+              "comm_error", "timeout_error", "stream_exhausted", "bystander", "retry_budget_changed"]
     RULE = ("plan = (server type, serializer, compression, MAX_RETRIES, proxy timeout, initial sequence number, 3-12 calls, "
-            "<= 6 message-level faults keyed by INVOKE ordinal / handshake ordinal, fragmentation); distinct = distinct "
+            "<= 6 message-level faults keyed by INVOKE ordinal / handshake ordinal, fragmentation; in 20% of the plans some calls "
+            "first change the proxy's retry budget (_pyroMaxRetries); 25% of the plans run a second client with its own proxy, "
+            "never touched by a fault, concurrently, with line pre-emption inside Pyro5.serializers); distinct = distinct "
             "interleaving digest; non-trivial = at least one fault fired")
     ASSUMPTIONS = ["a stale reply whose sequence number equals the current one is never forged (indistinguishable by construction)",
-                   "exactly-once for a returned call is asserted with MAX_RETRIES=0; with retries the bound is 1+N executions",
+                   "exactly-once for a returned call is asserted with a retry budget of 0; with retries the bound is 1+N executions, N "
+                   "being the proxy's budget at the time of the call (the application may change _pyroMaxRetries between calls)",
                    "a one-way call must have executed once at quiescence only if its request was delivered and the connection was not reset afterwards",
                    "recovery is demanded for the call after a failed call when no fault fires during it",
                    "before the first injected fault no call may fail with a communication error"]
@@ -94,13 +104,16 @@ class RpcWorld(World):
     def gen(self, rng, tier):
         big = tier == "thorough"
         ncalls = rng.randint(3, 12 if big else 9)
-        kinds = ["echo", "echo", "echo", "boom", "ow", "batch", "set", "get", "stream"]
+        kinds = ["echo", "echo", "echo", "boom", "ow", "batch", "set", "get", "stream", "tagged"]
         calls = []
+        switch = rng.random() < 0.2      # the application changes the proxy's retry budget while it is in use
         for _ in range(ncalls):
             k = rng.choice(kinds)
             c = {"kind": k}
             if k in ("batch", "stream"):
                 c["n"] = rng.randint(1, 3)
+            if switch and calls and rng.random() < 0.3:
+                c["set_retries"] = rng.choice([0, 0, 1, 2])
             calls.append(c)
         nf = rng.choice([0, 1, 1, 2, 2, 3, 4, 6 if big else 4])
         faults = []
@@ -117,11 +130,28 @@ class RpcWorld(World):
             faults.append(f)
         need_to = any(f["kind"] in NEED_TIMEOUT for f in faults)
         timeout = 2.0 if (need_to or rng.random() < 0.5) else None
-        return {"servertype": rng.choice(["thread", "multiplex"]), "serializer": rng.choice(SERIALIZERS),
+        plan = {"servertype": rng.choice(["thread", "multiplex"]), "serializer": rng.choice(SERIALIZERS),
                 "compression": rng.random() < 0.3, "retries": rng.choice([0, 0, 1, 2]), "timeout": timeout,
                 "seq0": rng.choice([0, 0, 65533, 65534, 65535]), "calls": calls, "faults": faults,
                 "net": {"p_frag": rng.choice([0.0, 0.0, 0.3, 0.8]), "rst_discards_rx": rng.random() < 0.5},
                 "p_block": rng.choice([0.0, 0.0, 0.2, 0.6])}
+        if rng.random() < 0.25:
+            # a second client with a proxy of its own calls concurrently and is never touched by the middlebox: on the thread
+            # server two workers then decode requests and encode replies at the same time (line pre-emption inside the serializers)
+            plan["bystander"] = {"calls": rng.randint(2, 6), "gap": rng.choice([0, 0, 0.01])}
+            plan["p_line"] = rng.choice([0.02, 0.1, 0.3])
+        return plan
+
+    def line_codes(self, plan):
+        global _SER_CODES
+        if not plan.get("bystander"):
+            return ()
+        if _SER_CODES is None:
+            import Pyro5.serializers as SER
+            _SER_CODES = S.code_objects(*[v for v in vars(SER).values()
+                                          if (isinstance(v, type) and v.__module__ == SER.__name__) or
+                                          (hasattr(v, "__code__") and getattr(v, "__module__", "") == SER.__name__)])
+        return _SER_CODES
 
     def simplify(self, plan):
         if plan["compression"]:
@@ -170,7 +200,13 @@ class RpcWorld(World):
             c, s = net.conns[pipe.conn]
             return c, s
 
+        byst_conns = set()
+
         def c2s(pipe, k, info, raw):
+            if "BYST" in info["ann"]:
+                byst_conns.add(pipe.conn)
+            if pipe.conn in byst_conns:
+                return True
             if info["type"] == N.MSG_CONNECT:
                 return True
             if info["type"] != N.MSG_INVOKE:
@@ -196,6 +232,8 @@ class RpcWorld(World):
             return True
 
         def s2c(pipe, k, info, raw):
+            if pipe.conn in byst_conns:
+                return True
             c, s = pair(pipe)
             if info["type"] in (N.MSG_CONNECTOK, N.MSG_CONNECTFAIL):
                 f = hs_by_conn.get(pipe.conn)
@@ -297,6 +335,7 @@ class RpcWorld(World):
                 rec["out"] = ("other", type(x).__name__, str(x)[:200])
             rec["ret"] = sched.stamp()
             rec["conn_after"] = net.nconn
+            rec["retries"] = state.get("budget", plan["retries"])
             calls.append(rec)
             return rec
 
@@ -304,11 +343,19 @@ class RpcWorld(World):
             p = CL.Proxy(uri)
             p._pyroTimeout = plan["timeout"]
             p._pyroSeq = plan["seq0"]
+            budget = plan["retries"]
             for i, c in enumerate(plan["calls"]):
                 tok = "t%d" % i
                 k = c["kind"]
+                if c.get("set_retries") is not None:
+                    if c["set_retries"] != budget:
+                        ctx.probe("retry_budget_changed")
+                    budget = p._pyroMaxRetries = c["set_retries"]
+                    state["budget"] = budget
                 if k == "echo":
                     classify(lambda: p.echo(tok), {"i": i, "kind": k, "tok": tok})
+                elif k == "tagged":
+                    classify(lambda: p.tagged(tok), {"i": i, "kind": k, "tok": tok})
                 elif k == "boom":
                     classify(lambda: p.boom(tok), {"i": i, "kind": k, "tok": tok})
                 elif k == "ow":
@@ -344,9 +391,44 @@ class RpcWorld(World):
                 pass
             state["done"] = True
 
+        bcalls = []
+
+        def bystander():
+            from Pyro5.callcontext import current_context as cctx
+            spec = plan["bystander"]
+            cctx.annotations = {"BYST": b"1"}
+            q = CL.Proxy(uri)
+            q._pyroTimeout = None
+            q._pyroMaxRetries = 0
+            for i in range(spec["calls"]):
+                tok = "b%d" % i
+                rec = {"i": i, "tok": tok, "inv": sched.stamp()}
+                try:
+                    rec["out"] = ("ok", q.tagged(tok))
+                except Exception as x:  # noqa
+                    rec["out"] = ("err", type(x).__name__, str(x)[:160])
+                rec["ret"] = sched.stamp()
+                bcalls.append(rec)
+                if spec["gap"]:
+                    sched.sleep(spec["gap"])
+            try:
+                q._pyroRelease()
+            except Exception:  # noqa
+                pass
+
+        bt = None
+        if plan.get("bystander"):
+            ctx.probe("bystander")
+            bt = threading.Thread(target=bystander, name="bystander")
+            bt.start()
         t = threading.Thread(target=client, name="client")
         t.start()
         t.join(900.0)
+        if bt is not None:
+            bt.join(900.0)
+            if sched.sim_thread_of(bt).state != "done":
+                ctx.violate("call-hung", "bystander", "a call of the second, undisturbed client did not return within 900 virtual seconds")
+                return
         ct = sched.sim_thread_of(t)
         if ct.died:
             ctx.violate("client-thread-died", ct.died[0], "client thread died: %r" % (ct.died,))
@@ -361,10 +443,10 @@ class RpcWorld(World):
             ctx.disturbed = "daemon loop died: %r" % (srv.loop_death(),)
             return
         ctx.nontrivial = bool(st["fired"])
-        self._judge(ctx, plan, obj, calls, st)
+        self._judge(ctx, plan, obj, calls, st, bcalls)
 
     # ------------------------------------------------------------------
-    def _judge(self, ctx, plan, obj, calls, st):
+    def _judge(self, ctx, plan, obj, calls, st, bcalls=()):
         log = obj._log
         ex = obj._ex
         seen_E = {}
@@ -397,6 +479,7 @@ class RpcWorld(World):
         for rec in calls:
             k, out, tok = rec["kind"], rec["out"], rec["tok"]
             tag = out[0]
+            retries = rec.get("retries", plan["retries"])      # the budget in force when this call was made
             faults_during = any(rec["inv"] < s < rec["ret"] for s in fired_stamps)
             if tag == "other":
                 ctx.violate("non-communication-error", out[1], "call %d %s raised %s: %s" % (rec["i"], k, out[1], out[2]))
@@ -420,6 +503,21 @@ class RpcWorld(World):
                     ctx.violate("too-many-executions", "echo", "call %d ran %d times with MAX_RETRIES=%d" % (rec["i"], ex.get(tok, 0), retries))
                 if ex.get(tok, 0) > 1:
                     ctx.probe("retry_taken")
+            elif k == "tagged":
+                if tag == "ok":
+                    v = out[1]
+                    if not (isinstance(v, dict) and set(v) == {"v", "tags"}):
+                        ctx.violate("foreign-reply", "shape", "call %d tagged(%s) returned %r" % (rec["i"], tok, v))
+                    else:
+                        own(rec, list(v["v"]) if isinstance(v["v"], (list, tuple)) else v["v"], tok, ("tagged",))
+                        if set(v["tags"]) != {tok, "x" + tok}:
+                            ctx.violate("foreign-reply", "token", "call %d tagged(%s) returned tags %r" % (rec["i"], tok, v["tags"]))
+                    if retries == 0 and ex.get(tok, 0) != 1:
+                        ctx.violate("returned-call-not-once", "tagged", "call %d returned but ran %d times" % (rec["i"], ex.get(tok, 0)))
+                elif tag not in ("comm", "other"):
+                    ctx.violate("unexpected-outcome", "tagged:" + tag, "call %d tagged -> %r" % (rec["i"], out))
+                if ex.get(tok, 0) > 1 + retries:
+                    ctx.violate("too-many-executions", "tagged", "call %d ran %d times with a retry budget of %d" % (rec["i"], ex.get(tok, 0), retries))
             elif k == "boom":
                 if tag == "remote":
                     ctx.probe("remote_exception")
@@ -487,7 +585,7 @@ class RpcWorld(World):
                     else:
                         ctx.probe("stream_exhausted")
             # clause 5: recovery after a failed call
-            if prev_failed and not faults_during and k in ("echo", "boom", "batch", "set", "get", "stream-open"):
+            if prev_failed and not faults_during and k in ("echo", "tagged", "boom", "batch", "set", "get", "stream-open"):
                 good = tag in ("ok", "remote")
                 if good:
                     ctx.probe("recovered_after_failure")
@@ -503,6 +601,21 @@ class RpcWorld(World):
                 prev_failed = True
             prev_kind = k
             nconn_before = rec["conn_after"]
+        # the second client is never touched by a fault: every one of its calls returns its own result, computed once
+        for rec in bcalls:
+            out, tok = rec["out"], rec["tok"]
+            if out[0] != "ok":
+                ctx.violate("bystander-call-failed", out[1], "call %d of the undisturbed second client failed: %s: %s" % (rec["i"], out[1], out[2]))
+                continue
+            v = out[1]
+            if not (isinstance(v, dict) and set(v) == {"v", "tags"} and isinstance(v["v"], (list, tuple))):
+                ctx.violate("foreign-reply", "bystander-shape", "second client: tagged(%s) returned %r" % (tok, v))
+                continue
+            own(dict(rec, kind="tagged", i="b%d" % rec["i"]), list(v["v"]), tok, ("tagged",))
+            if set(v["tags"]) != {tok, "x" + tok}:
+                ctx.violate("foreign-reply", "token", "second client: tagged(%s) returned tags %r" % (tok, v["tags"]))
+            if ex.get(tok, 0) != 1:
+                ctx.violate("returned-call-not-once", "bystander", "second client: tagged(%s) ran %d times" % (tok, ex.get(tok, 0)))
         if plan["seq0"] >= 65533 and len(calls) >= 4:
             ctx.probe("seq_wrap")
         # clause 4: a delivered one-way request ran exactly once
